@@ -59,7 +59,7 @@ func c04Gen(rt *rapid.T) c04Case {
 		cr.SQL = gen.RenderStmt(gen.Plain(), cr)
 		gen.MustApply(db, cr)
 		c.Stmts = append(c.Stmts, cr)
-		rows := rapid.SampledFrom([]int{1040, 1100, 1200, 1400}).Draw(rt, "bulk_rows")
+		rows := rapid.SampledFrom([]int{1040, 1100, 1200, 1400, 1760}).Draw(rt, "bulk_rows")
 		for n := 0; n < rows; {
 			ins := model.Stmt{Kind: "insert", Table: "big"}
 			for i := 0; i < 100 && n < rows; i++ {
